@@ -52,6 +52,8 @@ type dgram struct {
 	L4  string `json:"l4"`
 	Ul  string `json:"ul"`
 	Dp  string `json:"dp"`
+	Pl  string `json:"pl"`
+	Tr  string `json:"tr"`
 }
 
 type field struct {
